@@ -253,6 +253,8 @@ def evaluate(case):
         return eval_long_run(case)
     if "binary_sections" in case:
         return eval_binary_sections(case)
+    if "archive_listing" in case:
+        return eval_archive_listing(case)
     ev = Eval()
     L = case["listing"]
     NV = norm_view(L)
@@ -411,7 +413,54 @@ def eval_binary_sections(case):
     return ev
 
 
+def eval_archive_listing(case):
+    """The listing objdump prints for a static library (`In archive lib.a:` and one title line per member, addresses restarting at 0):
+    one instruction stream like any other - first-match is the head of all-matches, an occurrence may straddle two members."""
+    import subprocess
+
+    from vlib.elfw import make_elf, run_objdump
+    from vlib.realsrc import records_of_text
+
+    ev = Eval()
+    sc = jasm_io.scratch()
+    d = sc.path("c11_archive")
+    os.makedirs(d, exist_ok=True)
+    members = {"m1.o": "55 4889e5 c3", "m2.o": "50 4831c0 58 c3", "m3.o": "55 c3 50 c3"}
+    for nm, hx in members.items():
+        with open(os.path.join(d, nm), "wb") as f_:
+            f_.write(make_elf([(".text", bytes.fromhex(hx.replace(" ", "")), True)], [("f_" + nm[:2], 1, 0)]))
+    arch = os.path.join(d, "libc11.a")
+    if os.path.exists(arch):
+        os.unlink(arch)
+    if subprocess.run(["ar", "rcD", "libc11.a", *members], cwd=d, capture_output=True).returncode != 0:
+        ev.tags = ["archive-listing", "ar-not-available"]
+        return ev
+    rc, text, _ = run_objdump(["-d", "-M", "att", arch])
+    NV = records_of_text(text)
+    ev.subcases = 0
+    if rc != 0 or not NV:
+        ev.tags = ["archive-listing", "objdump-failed"]
+        return ev
+    for inp, binary in ((sc.write("c11_archive.s", text), False), (arch, True)):
+        for pattern in (["ret"], ["ret", "push"], ["push"], [{"$or": ["mov", "xor"]}, {"$not": ["push"]}]):
+            rp = sc.write("c11_archive_rule.yaml", jasm_io.rule_text(jasm_io.make_doc(pattern)))
+            r_all = jasm_io.match_files(rp, inp, mode="list", search="all", binary=binary)
+            r_first = jasm_io.match_files(rp, inp, mode="list", search="first", binary=binary)
+            ev.subcases += 2
+            if r_all[0] == "ok" and r_first[0] == "ok":
+                check_scan(ev, pattern, NV, r_all[1], r_first[1], Ref(NV, False, False).spans(pattern), ctx={"archive_listing": "binary" if binary else "text", "rule": pattern})
+            elif "exc" in (r_all[0], r_first[0]):
+                ev.dev("exception", archive_listing="binary" if binary else "text", rule=pattern, error=[list(r_all[:2]), list(r_first[:2])])
+    ev.tags = ["archive-listing"]
+    ev.nontrivial = True
+    ev.keys = [("archive-listing",)]
+    return ev
+
+
 def _zone_worker(cut):
+    if cut == "archive-listing":
+        case = {"archive_listing": True}
+        return case, eval_archive_listing(case)
     if isinstance(cut, tuple):
         case = {"binary_sections": list(cut)}
         return case, eval_binary_sections(case)
@@ -487,8 +536,9 @@ def extra(tier, seed, rep):
     from vlib import longlist
 
     with mp.get_context("fork").Pool(16, maxtasksperchild=1) as pool:
-        for case, ev in pool.imap_unordered(_zone_worker, [(".text.hot", ".text"), (".text", ".text.hot"), (".text.hot", ".nosuch", ".text")] + ["near-window-then-genuine", "near-window-only", "two-genuine-adjacent", "more-specific-child"] + sorted(LONG_RUNS) + sorted(longlist.CUTS, reverse=True), chunksize=1):
+        for case, ev in pool.imap_unordered(_zone_worker, ["archive-listing", (".text.hot", ".text"), (".text", ".text.hot"), (".text.hot", ".nosuch", ".text")] + ["near-window-then-genuine", "near-window-only", "two-genuine-adjacent", "more-specific-child"] + sorted(LONG_RUNS) + sorted(longlist.CUTS, reverse=True), chunksize=1):
             rep.add_eval(case, ev)
+    rep.exhaustive_parts.append("the listing of a three-member static library (text and binary input): scan laws across member boundaries")
     rep.exhaustive_parts.append("3 section lists in and out of file order on a linked ELF given as binary: the scan is in address order and equals the text route's")
     rep.exhaustive_parts.append("5 runs of 1000-1003 instructions against repetition bounds of 999 / 1000 followed by more pattern")
     rep.exhaustive_parts.append("4 fixed listings for a 7-child $and_any_order with a doubled / more specific child (windows that fit child by child but not one-to-one)")
